@@ -63,11 +63,7 @@ def run(cx):
     for m in (em, pm, hm):
         cx.consulted(m)
     cx.explanation = (
-        "who-may-call rule (no delay / no while) and loop bounds on the start/tick helper templates; pairing of animate() with tick "
-        "registration and of registered animations with emitted tick calls (partial evaluation); name tables of host, parser and "
-        "emitter; rate guard dominates every state update and last-step := now on both sides; `active = false` only under !loop; "
-        "the progress variable of each style only steps or is clamped at its terminal value; frames go to the animation's row and "
-        "are truncated to the width (shared with C17); the linear step bound itself is not computed"
+        'who-may-call rule (no delay / no while) and loop bounds on the start/tick templates; tick registration and placement on scripts through parse(); name tables of host, parser and emitter; rate limiting and life cycle by driving firmware helpers (C semantics, scripted millis, cell model) and the host LCD through the same schedules: frames stay in their row, steps never closer than speed_ms, non-looping animations finish within 4*(len+cols)+8 steps, looping ones never; the bound is checked on the grid, not proved for all lengths.'
     )
     cls, fields = pe.ir_classes()
     fns, names = c17.helper_functions(em)
